@@ -126,7 +126,20 @@ class Ctx:
     def _decide(self, goal):
         """validity of `goal` under the path condition: ('unsat'|'sat'|'unknown', model, dt, backend)"""
         neg = z3.Not(goal)
-        r, m, dt = self.sat(neg, timeout=8000)
+        r, m, dt = self.sat(neg, timeout=3000)
+        if r != z3.unknown:
+            return r, m, dt, "z3"
+        # identity between rational functions: sympy cancels it; each denominator must be non-zero (z3, linear)
+        t0 = time.time()
+        try:
+            from . import ratid
+            ok, dens = ratid.identity(goal)
+            if ok and all(self.sat(d == 0, timeout=5000)[0] == z3.unsat for d in dens):
+                return z3.unsat, None, dt + time.time() - t0, "sympy-cancel"
+        except Exception:  # noqa: BLE001 - the fallback below still decides
+            pass
+        r, m, dt2 = self.sat(neg, timeout=12000)
+        dt += dt2 + time.time() - t0
         if r != z3.unknown:
             return r, m, dt, "z3"
         # unstable nonlinear queries: other seeds / the nlsat tactic / cvc5, before giving up
@@ -134,7 +147,7 @@ class Ctx:
         for seed in (7, 31):
             s = z3.Solver()
             s.set("timeout", 8000)
-            s.set("seed", seed)
+            s.set("random_seed", seed)
             s.add(*self.pc)
             s.add(neg)
             r = s.check()
